@@ -3,6 +3,10 @@ import CogentModel.Spec.PairHMM
 import CogentModel.Model.GapMerge
 import CogentModel.Proofs.PairHMMMain
 import CogentModel.Proofs.PairHMMLocal
+import CogentModel.Model.Hirschberg
+import CogentModel.Proofs.HirschMain
+import CogentModel.Model.ClassicHMM
+import CogentModel.Proofs.ClassicHMM
 import CogentModel.Proofs.GapMerge
 /-! # C18 — property theorems: aligners preserve their inputs and are optimal for their own model
 
@@ -79,7 +83,7 @@ theorem rows_degap_to_inputs (h : HMM S) (hns : NoSilent h) {α : Type} (s1 s2 :
     ∃ steps, (viterbiGlobal h s1.length s2.length).path = some steps ∧
       (rowsOfPath h s1 s2 steps).1.filterMap id = s1 ∧ (rowsOfPath h s1 s2 steps).2.filterMap id = s2 := by
   obtain ⟨p, hpath, hp, _⟩ := global_attained h hns s1.length s2.length v hv
-  have hd := rows_degap h s1 s2 p 0 0 (by rw [hp.2]; exact Nat.le_refl _) (by rw [hp.2]; exact Nat.le_refl _)
+  have hd := rows_degap h s1 s2 p 0 0 (Nat.le_of_eq (by rw [hp.2])) (Nat.le_of_eq (by rw [hp.2]))
   rw [hp.2] at hd
   exact ⟨_, hpath, by simpa using hd.1, by simpa using hd.2⟩
 
@@ -118,13 +122,89 @@ theorem merge_keeps_pairwise_counter :
    is expected to hold (no counterexample in the seeded search, see the harness) but is not proved here: it
    needs a refinement proof of the dict/bisect arithmetic of `_GapOffset` against the row semantics. -/
 
-/- FULL STATEMENT (not proved): hirschberg_eq_full
-     for every split row `r`: max over (j, state) of forward(r, j, state) + backward(r, j, state) equals
-     (viterbiGlobal h n m).score, and the concatenation of the two half tracebacks pinned to the anchor state is
-     an optimal global path.
-   Not modelled in Lean.  The real code violated the second half (finding
-   C18-hirschberg-first-half-not-pinned-to-anchor-state, repaired in the repo by fe1585a19); both code paths are compared on the same inputs by the
-   harness (`HIRSCHBERG_LIMIT` toggle) against the proved optimum. -/
+/-- **Linear-space (Hirschberg) alignment = full dynamic programming.**  `hirsch` mirrors
+`PairEmissionProbs.hirschberg` as the code now does it (forward half to the split row, backward half on the reversed
+problem, `argmax` over `(column, state)` of the middle row, first half pinned to END in the anchor state, second half
+started from the anchor state, recursion until the size test fails, base case = full DP).  For EVERY pair HMM without
+silent states, every pair of lengths, every `HIRSCHBERG_LIMIT`, every recursion fuel and every choice of split row
+`1 ≤ split n ≤ n` (the code uses `n / 2`): the reported value is the full-DP optimum, and when it is finite the
+concatenated traceback is the annotation of ONE state path that emits exactly the two sequences, whose independently
+recomputed score is that value and which no other global path beats.  Needs `+` associative/commutative
+(`ScoreLawsAC`: `Int`, `Rat`) and `z` = the score of probability 1 (`x + z = x`).  The heart is the cut lemma
+(`globalScore_cut`, `mid_upper`, `bwd_upper`/`bwd_attained` in `Proofs/Hirsch*.lean`): max over paths = max over
+(cell, state) of the split row of (best prefix ending there) + (best continuation from there). -/
+theorem hirschberg_eq_full [ScoreLawsAC S] (z : S) (hz : ∀ x : S, x + z = x) (split : Nat → Nat)
+    (hsplit : ∀ n, 3 ≤ n → 1 ≤ split n ∧ split n ≤ n) (limit fuel : Nat) (h : HMM S) (hns : NoSilent h) (n m : Nat) :
+    (hirsch z split limit fuel h n m).score = (viterbiGlobal h n m).score ∧
+    ∀ v, (hirsch z split limit fuel h n m).score = some v →
+      ∃ p, (hirsch z split limit fuel h n m).path = some (annotate h 0 0 p) ∧ IsGlobalPath h n m p ∧
+        globalScore h p = some v ∧ ∀ q, IsGlobalPath h n m q → ele (globalScore h q) (globalScore h p) := by
+  obtain ⟨hs, hp⟩ := hirsch_correct z hz split hsplit limit fuel h hns n m
+  refine ⟨hs, fun v hv => ?_⟩
+  obtain ⟨p, hpath, hgp, hsc⟩ := hp v hv
+  refine ⟨p, hpath, hgp, hsc, fun q hq => ?_⟩
+  rw [hsc, ← hv, hs]
+  exact global_upper h n m q hq
+
+/-- the rows of the Hirschberg alignment degap to the inputs (same statement as for the full DP) -/
+theorem hirschberg_rows_degap [ScoreLawsAC S] (z : S) (hz : ∀ x : S, x + z = x) (split : Nat → Nat)
+    (hsplit : ∀ n, 3 ≤ n → 1 ≤ split n ∧ split n ≤ n) (limit fuel : Nat) (h : HMM S) (hns : NoSilent h)
+    {α : Type} (s1 s2 : List α) (v : S) (hv : (hirsch z split limit fuel h s1.length s2.length).score = some v) :
+    ∃ steps, (hirsch z split limit fuel h s1.length s2.length).path = some steps ∧
+      (rowsOfPath h s1 s2 steps).1.filterMap id = s1 ∧ (rowsOfPath h s1 s2 steps).2.filterMap id = s2 := by
+  obtain ⟨p, hpath, hgp, _⟩ := (hirsch_correct z hz split hsplit limit fuel h hns s1.length s2.length).2 v hv
+  have hd := rows_degap h s1 s2 p 0 0 (Nat.le_of_eq (by rw [hgp.2])) (Nat.le_of_eq (by rw [hgp.2]))
+  rw [hgp.2] at hd
+  exact ⟨_, hpath, by simpa using hd.1, by simpa using hd.2⟩
+
+/-! ## from the caller's score matrix and gap costs to optimality -/
+
+theorem logHMM_noSilent {P : Type} [Add P] [Mul P] [Div P] [OfNat P 0] [OfNat P 1] [NatCast P]
+    (lg : P → Option S) (n : Nat) (ed ee : P) (es : Nat → Nat → P) (x y : Nat → Nat) :
+    NoSilent (ClassicHMM.logHMM lg n ed ee es x y) := by
+  intro s h1 h2
+  have h2' : s ≤ 3 := h2
+  have : s = 1 ∨ s = 2 ∨ s = 3 := by omega
+  rcases this with rfl | rfl | rfl <;> rfl
+
+/-- **The chain from the user's parameters to optimality.**  `ClassicHMM.logHMM` is the pair HMM that
+`classic_align_pairwise` builds, as a function of `ed = exp(-d)`, `ee = exp(-e)`, `es a b = exp(Sd[a, b])` (any
+positive elements of any ordered field) and of the log `lg` (any map): (1) its transition part is a genuine affine-gap
+model — every row a probability distribution with extension `ee/(ee+1)`, open `ed/(2ed+1)`, **no X↔Y**, END weight 1,
+BEGIN a distribution; (2) a match of s1 motif `a` with s2 motif `b` emits `lg (n · exp(Sd[a, b]))`, gaps emit `lg 1`;
+(3) for that HMM the Viterbi value bounds every global path over the two sequences and is attained by the returned
+path.  (The harness checks on every run that the real code builds exactly this HMM from the caller's matrix.) -/
+theorem classic_alignment_optimal {P : Type} [Field P] [LinearOrder P] [IsStrictOrderedRing P]
+    (lg : P → Option S) (n : Nat) (hn : 0 < n) (ed ee : P) (hd : 0 < ed) (he : 0 < ee) (es : Nat → Nat → P)
+    (x y : Nat → Nat) (hx : ∀ i, x i < n) (hy : ∀ j, y j < n) (len1 len2 : Nat) :
+    (ClassicHMM.IsStochastic (ClassicHMM.gapT ed ee) ∧
+      ClassicHMM.stationary (ClassicHMM.gapT ed ee) 0 + ClassicHMM.stationary (ClassicHMM.gapT ed ee) 1 +
+        ClassicHMM.stationary (ClassicHMM.gapT ed ee) 2 = 1) ∧
+    ((ClassicHMM.logHMM lg n ed ee es x y).T 1 2 = lg 0 ∧ (ClassicHMM.logHMM lg n ed ee es x y).T 2 1 = lg 0 ∧
+      (ClassicHMM.logHMM lg n ed ee es x y).T 1 1 = lg (ee / (ee + 1)) ∧
+      (ClassicHMM.logHMM lg n ed ee es x y).T 3 1 = lg (ed / (2 * ed + 1)) ∧
+      (ClassicHMM.logHMM lg n ed ee es x y).T 3 3 = lg (1 / (2 * ed + 1)) ∧
+      (ClassicHMM.logHMM lg n ed ee es x y).T 3 4 = lg 1) ∧
+    (∀ i j, (ClassicHMM.logHMM lg n ed ee es x y).em 3 i j = lg ((n : P) * es (x i) (y j)) ∧
+      (ClassicHMM.logHMM lg n ed ee es x y).em 1 i j = lg 1 ∧ (ClassicHMM.logHMM lg n ed ee es x y).em 2 i j = lg 1) ∧
+    (∀ p, IsGlobalPath (ClassicHMM.logHMM lg n ed ee es x y) len1 len2 p →
+      ele (globalScore (ClassicHMM.logHMM lg n ed ee es x y) p)
+        (viterbiGlobal (ClassicHMM.logHMM lg n ed ee es x y) len1 len2).score) ∧
+    (∀ v, (viterbiGlobal (ClassicHMM.logHMM lg n ed ee es x y) len1 len2).score = some v →
+      ∃ p, (viterbiGlobal (ClassicHMM.logHMM lg n ed ee es x y) len1 len2).path =
+          some (annotate (ClassicHMM.logHMM lg n ed ee es x y) 0 0 p) ∧
+        IsGlobalPath (ClassicHMM.logHMM lg n ed ee es x y) len1 len2 p ∧
+        globalScore (ClassicHMM.logHMM lg n ed ee es x y) p = some v) := by
+  have hsh := ClassicHMM.fullMatrix_shape ed ee
+  refine ⟨⟨ClassicHMM.gapT_stochastic ed ee hd he, (ClassicHMM.begin_is_distribution ed ee hd he).1⟩, ?_, ?_, ?_, ?_⟩
+  · simp only [ClassicHMM.logHMM]
+    exact ⟨by rw [hsh.1], by rw [hsh.2.1], by rw [hsh.2.2.2.2.1], by rw [hsh.2.2.2.2.2.2.1], by rw [hsh.2.2.2.2.2.2.2.2],
+      by rw [hsh.2.2.1 3 (by omega)]⟩
+  · intro i j
+    simp only [ClassicHMM.logHMM, ClassicHMM.gapProb]
+    exact ⟨by simp [ClassicHMM.matchProb_eq n hn es (x i) (y j) (hx i) (hy j)], by simp, by simp⟩
+  · exact fun p hp => global_upper _ len1 len2 p hp
+  · exact fun v hv => global_attained _ (logHMM_noSilent lg n ed ee es x y) len1 len2 v hv
 
 /-! ## additions of the audit: the whole pairwise clause about ONE returned alignment
 
@@ -145,7 +225,7 @@ theorem global_alignment_sound (h : HMM S) (hns : NoSilent h) {α : Type} (s1 s2
       (rowsOfPath h s1 s2 (annotate h 0 0 p)).1.filterMap id = s1 ∧
       (rowsOfPath h s1 s2 (annotate h 0 0 p)).2.filterMap id = s2 := by
   obtain ⟨p, hpath, hp, hs⟩ := global_attained h hns s1.length s2.length v hv
-  have hd := rows_degap h s1 s2 p 0 0 (by rw [hp.2]; exact Nat.le_refl _) (by rw [hp.2]; exact Nat.le_refl _)
+  have hd := rows_degap h s1 s2 p 0 0 (Nat.le_of_eq (by rw [hp.2])) (Nat.le_of_eq (by rw [hp.2]))
   rw [hp.2] at hd
   refine ⟨p, hpath, hp, by rw [hs, hv], ?_, rows_equal_length h s1 s2 _, by simpa using hd.1, by simpa using hd.2⟩
   intro q hq
@@ -202,6 +282,11 @@ example : (viterbiLocal exHMM 3 2).score = some 4 ∧ (viterbiLocal exHMM 3 2).p
 example : (viterbiGlobal exHMM "ACG".toList.length "AC".toList.length).score = some 1 := by decide
 example : (viterbiLocal exHMM "ACG".toList.length "AC".toList.length).score = some 4 ∧
     rowsOfPath exHMM "ACG".toList "AC".toList [(3, 1, 1), (3, 2, 2)] = ([some 'A', some 'C'], [some 'A', some 'C']) := by decide
+example : (hirsch (0 : Int) (· / 2) 0 5 exHMM 5 3).score = (viterbiGlobal exHMM 5 3).score ∧
+    (hirsch (0 : Int) (· / 2) 0 5 exHMM 5 3).score = some 2 ∧
+    (hirsch (0 : Int) (· / 2) 0 5 exHMM 5 3).path =
+      some [(1, 1, 0), (1, 2, 0), (3, 3, 1), (3, 4, 2), (3, 5, 3)] ∧
+    (viterbiGlobal exHMM 5 3).path = some [(3, 1, 1), (3, 2, 2), (3, 3, 3), (1, 4, 3), (1, 5, 3)] := by decide
 example : pairValid 4 ([(1,1),(4,1)], [], 6) = true := by decide
 example : keepsAll true 4 [([(1,1),(4,1)], [], 6), ([(4,1)], [(0,1)], 4), ([], [(0,2)], 2)] = true := by decide
 
